@@ -47,9 +47,20 @@ def split_multi_op_moments(
             return moment
         non_measurement_ops = [op for op in moment if not isinstance(op.gate, cirq.MeasurementGate)]
         measurements = [op for op in moment if isinstance(op.gate, cirq.MeasurementGate)]
-        result = [cirq.Moment([op]) for op in non_measurement_ops]
+        # Operations controlled by a key measured in this very moment stay behind the measurement.
+        measured_keys = {key for op in measurements for key in cirq.measurement_key_objs(op)}
+        result = [
+            cirq.Moment([op])
+            for op in non_measurement_ops
+            if measured_keys.isdisjoint(cirq.control_keys(op))
+        ]
         if measurements:
             result.append(cirq.Moment(measurements))
+        result += [
+            cirq.Moment([op])
+            for op in non_measurement_ops
+            if not measured_keys.isdisjoint(cirq.control_keys(op))
+        ]
         return result
 
     return cirq.map_moments(circuit, split_moment).unfreeze(copy=False)
